@@ -81,7 +81,7 @@ package electricpb
 //@ // only a mode that exists can become active.  C14: every accepted change is ONE write of the active-mode register and
 //@ // the answer is that write's result (the message now stored, which is what the next GetActiveMode reads): no path
 //@ // answers with anything else, e.g. with the mode's definition from the collection
-//@ property C19 C14
+//@ property C19 C14 C07
 //@ func (*Model).changeActiveMode(id) (res, err)
 //@   option locks caller
 //@   requires wfModel(recv) && heldW(recv.mu)
@@ -90,6 +90,11 @@ package electricpb
 //@   ensures [known@C19+C14] old(has(recv.modes.byId, keyOfModes(recv, id))) ==> calls(Set) == old(calls(Set)) + 1
 //@   ensures [answer@C14] err == nil ==> calls(Set) == old(calls(Set)) + 1 && istype(lastcall(Set, 0), *traits.ElectricMode) && res == modeOf(lastcall(Set, 0))
 //@   ensures [rejected@C14] err != nil ==> res == nil
+//@   // C07: the message handed to the write is the mode's definition as STORED in the modes collection (an unmasked Get hands
+//@   // out the stored message); it may only go through a write whose interceptors see the merged copy (InterceptAfter), never
+//@   // one that lets an interceptor edit the caller's message (InterceptBefore), or the definition itself gets the start time
+//@   track InterceptBefore
+//@   ensures [definition-not-edited@C07] calls(InterceptBefore) == old(calls(InterceptBefore))
 //@ pure func keyOfModes(m, id) = m.modes.config.idInterceptor == nil ? id : m.modes.config.idInterceptor(id)
 //@ property C19
 //@
@@ -118,6 +123,26 @@ package electricpb
 //@   track normalMode
 //@   ensures [second-normal-refused] old(mode.Normal) && calls(normalMode) > old(calls(normalMode)) && lastcall(normalMode, 1) ==> err != nil && res == nil && calls(Add) == old(calls(Add))
 //@   ensures [normal-checked] old(mode.Normal) ==> calls(normalMode) == old(calls(normalMode)) + 1
+//@
+//@ // the check-then-add of createOrAddMode (and the update) is atomic only because the public entry points hold the model's
+//@ // WRITE lock around it: two overlapping creates of a normal mode must not both pass the check
+//@ func (*Model).CreateMode(mode) (res, err)
+//@   requires wfModel(recv) && mode != nil && mode.Id == ""
+//@   track createOrAddMode
+//@   ensures [under-lock] calls(createOrAddMode) == old(calls(createOrAddMode)) + 1 && lastheldW(createOrAddMode, recv.mu) && res == lastcall(createOrAddMode, 0) && err == lastcall(createOrAddMode, 1)
+//@   ensures [unlocked] !held(recv.mu)
+//@
+//@ func (*Model).AddMode(mode) (err)
+//@   requires wfModel(recv) && mode != nil && mode.Id != ""
+//@   track createOrAddMode
+//@   ensures [under-lock] calls(createOrAddMode) == old(calls(createOrAddMode)) + 1 && lastheldW(createOrAddMode, recv.mu) && err == lastcall(createOrAddMode, 1)
+//@   ensures [unlocked] !held(recv.mu)
+//@
+//@ func (*Model).UpdateMode(mode, opts) (res, err)
+//@   requires wfModel(recv) && mode != nil && atMostOneNormal(recv) && writeOptsOKe(opts)
+//@   track updateMode
+//@   ensures [under-lock] calls(updateMode) == old(calls(updateMode)) + 1 && lastheldW(updateMode, recv.mu) && res == lastcall(updateMode, 0) && err == lastcall(updateMode, 1)
+//@   ensures [unlocked] !held(recv.mu)
 //@
 //@ // invariant 1 (at most one normal mode) across an update: a successful update that leaves the mode normal must not leave a
 //@ // second normal mode behind.  updateMode has no such check (createOrAddMode has); recorded as a known finding with its
